@@ -459,6 +459,11 @@ CORPUS = [
        # pieces of different dtypes, the narrower one first: the joined array has the promoted dtype
        lambda L, i, x, f, m, y: {"c": L.concatenate([i, x]), "h": L.concatenate([i, x]) * 0.5, "cf": L.concatenate([f, x, i]),
                                  "s": L.stack([i, f]), "s2": L.stack([m, y], axis=1) + 1, "cm": L.concatenate([m, y], axis=1)}),
+    _P("repeated_operands", [ph("x", (3,)), ph("y", (3,))],
+       # one array in several operand slots of a single node (the same instance, or an equal one built again)
+       lambda L, x, y: {"s": L.stack([x, x]), "c": L.concatenate([x, y, x]), "s2": L.stack([x + 1, y, x + 1], axis=1),
+                        "c2": L.concatenate([x * y, x * y]), "e": L.einsum("i,i->", x, x), "w": L.where(L.less(x, y), x, x),
+                        "both": L.stack([x, x]) * 2 + L.stack([y, y])}, tags=("reduction", "einsum")),
     _P("neg_abs_pow", [ph("x", (3,)), ph("m", (3,), I64)],
        lambda L, x, m: {"a": -x, "b": abs(x) ** 0.5, "c": (-m) ** 2, "e": x ** 2 - m}),
 ]
